@@ -33,6 +33,7 @@ fn gens(tier: Tier) -> Vec<Gen> {
         Gen { name: "status", count: 900, exhaustive: true, run: run_status },
         Gen { name: "cuts", count: cuts_count(), exhaustive: true, run: run_cuts },
         Gen { name: "bodies", count: 6 * 3 * 2 * 2, exhaustive: true, run: run_bodies },
+        Gen { name: "text-refusal-bodies", count: (4 * 4 * 2) as u64, exhaustive: true, run: run_text_bodies },
         Gen { name: "refusal-then-io-error", count: (4 * 3 * 3) as u64, exhaustive: true, run: run_refusal_then_error },
         Gen { name: "matrix", count: (3 * 2 * 2 * 8 * 2) as u64, exhaustive: true, run: run_matrix },
         Gen { name: "garbage", count: tier.pick(800, 30_000), exhaustive: false, run: run_garbage },
@@ -394,6 +395,30 @@ fn run_cuts(ctx: &mut Ctx, rng: &mut Rng, index: u64) {
     judge_refusal(ctx, &cfg, &run, None, b"", &descr);
     ctx.nontrivial(format!("cut{i}@{idx}").as_bytes());
     ctx.sample(|| json!({"gen": "cuts", "reply": show(&reply), "cut_at": idx, "result": format!("{:?}", run.result.as_ref().map_err(|e| format!("{e:?}")))}));
+}
+
+/// refusal bodies that are valid UTF-8 text with multi-byte characters at every alignment (an
+/// error page in another language): whatever the client does with the body besides keeping it
+/// (previews, logging), byte offsets such as 256 or 10 240 fall inside a character
+fn run_text_bodies(ctx: &mut Ctx, rng: &mut Rng, index: u64) {
+    let k = (index % 4) as usize;
+    let (unit, n): (&str, usize) = [("\u{e9}", 300), ("\u{65e5}", 200), ("\u{1f600}", 100), ("\u{e9}", 6000)][((index / 4) % 4) as usize];
+    let status = if (index / 16) % 2 == 0 { 403 } else { 407 };
+    let body = format!("{}{}", "a".repeat(k), unit.repeat(n)).into_bytes();
+    let cfg = Config::basic();
+    let mut head = reply_head(status, false);
+    head.truncate(head.len() - 2);
+    head.extend_from_slice(b"Content-Type: text/html; charset=utf-8\r\n\r\n");
+    let descr = |x: &str| format!("{x}; refusal {status} with a UTF-8 text body of {} bytes: {k} ASCII letters, then {n} x {unit:?}", body.len());
+    let mut steps = seg(rng, index % 3, &head);
+    steps.extend(seg(rng, index % 3, &body));
+    ctx.count("text_refusal_bodies", 1);
+    let run = match run_scripted(&cfg, steps) {
+        Some(r) => r,
+        None => return ctx.violation("no-dial", descr("no connection was made")),
+    };
+    judge_refusal(ctx, &cfg, &run, Some(status), &body, &descr);
+    ctx.nontrivial(format!("textbody{index}").as_bytes());
 }
 
 fn run_bodies(ctx: &mut Ctx, rng: &mut Rng, index: u64) {
